@@ -571,6 +571,29 @@ impl VisitMut for Rewriter {
                 *e = parse_quote! { atomic({ let __cell = #recv; let #pid = __cell.load(h, #o2); let __upd = #body; match __upd { Some(__n) => { __cell.store(h, __n, #o1); Ok(#pid) } None => Err(#pid) } }) };
                 return;
             }
+            // R8 any(ptr_eq): membership by identity
+            if m.method == "any" && m.args.len() == 1 {
+                if let Expr::MethodCall(it) = strip_parens(&m.receiver) {
+                    if it.method == "iter" {
+                        if let Some(clo) = strip_container(&m.args[0]) {
+                            if let Expr::Call(pc) = strip_parens(&clo.body) {
+                                if ts(&pc.func) == "Arc::ptr_eq" && pc.args.len() == 2 {
+                                    let p = clo.inputs.first().and_then(pat_ident).unwrap_or_default();
+                                    let (a0, a1) = (ts(&pc.args[0]), ts(&pc.args[1]));
+                                    let other = if a0 == p { Some(pc.args[1].clone()) } else if a1 == p { Some(pc.args[0].clone()) } else { None };
+                                    if let Some(other) = other {
+                                        let mut recv = (*it.receiver).clone();
+                                        self.visit_expr_mut(&mut recv);
+                                        let other: Expr = match other { Expr::Reference(r) => (*r.expr).clone(), o => o };
+                                        *e = parse_quote! { #recv.any_ptr_eq(&#other) };
+                                        return;
+                                    }
+                                }
+                            }
+                        }
+                    }
+                }
+            }
             // R8 position(ptr_eq)
             if m.method == "position" && m.args.len() == 1 {
                 if let Expr::MethodCall(it) = strip_parens(&m.receiver) {
